@@ -1,3 +1,4 @@
+import NpsVerif.Gen.Cur
 /-!
 # L layer: `bitarray.py` `BitArray` (property C13)
 
@@ -40,9 +41,16 @@ def getitem (data : List Nat) (b idx : Nat) : Option Nat :=
   let n := 64 / b
   (data[idx / n]?).map (fun r => (r >>> ((idx % n) * b)) &&& (2 ^ b - 1))
 
+/-- `__getitem__(int)` with the addressing arithmetic GENERATED from the current source (kernel K11
+`bit_addr`: register number and in-register position of element `idx`, offset 0) -/
+def getitemK (data : List Nat) (b idx : Nat) : Option Nat :=
+  let a := Gen.Cur.bit_addr 0 ((64 / b : Nat) : Int) (idx : Int)
+  if a.1 < 0 ∨ a.2 < 0 then none else
+  (data[a.1.toNat]?).map (fun r => (r >>> (a.2.toNat * b)) &&& (2 ^ b - 1))
+
 /-- `__getitem__(list)`: gather the elements, then `pack` them again -/
 def getitemList (data : List Nat) (b : Nat) (is : List Nat) : Option (List Nat) :=
-  (is.mapM (getitem data b)).map (fun vals => pack vals b)
+  (is.mapM (getitemK data b)).map (fun vals => pack vals b)
 
 /-- `sliding_window(w)`:
 `mask = ~0 >> (64 - w*b)`; `res = data[:, None] >> shifts`;
